@@ -69,12 +69,32 @@ def _worker_init(cid):
     _CHECK = load_check(cid)
 
 
+def _library_exception(shard):
+    """An exception that escapes from LIBRARY code (innermost frame under the repository) through a
+    path the harness did not anticipate is a misbehaving library, not a harness fault: it becomes a
+    violation that names the shard, so that a changed tree can never hide behind exit 2."""
+    et, ev, tb = sys.exc_info()
+    frames = traceback.extract_tb(tb)
+    if frames and os.path.realpath(frames[-1].filename).startswith(repo.REPO + os.sep):
+        r = new_result()
+        r["evaluations"] = 1
+        where = f"{os.path.relpath(frames[-1].filename, repo.REPO)}:{frames[-1].name}"
+        add_violation(r, f"{_CHECK.ID}:unexpected-library-exception:{et.__name__}",
+                      f"{et.__name__}: {ev} raised in {where} while exploring shard {repr(shard)[:120]}",
+                      {"__shard__": jsonable(shard)})
+        r["distinct"] = {("exception", et.__name__), ("exception-shard", repr(shard)[:60])}
+        return r
+    return None
+
+
 def _worker_run(shard):
     t0 = time.time()
     try:
         r = _CHECK.run_shard(shard)
     except BaseException:
-        return {"harness_error": traceback.format_exc(), "shard": repr(shard)[:300]}
+        r = _library_exception(shard)
+        if r is None:
+            return {"harness_error": traceback.format_exc(), "shard": repr(shard)[:300]}
     r["wall"] = time.time() - t0
     # sets of large cardinality are hashed down to ints to keep IPC small
     if len(r["distinct"]) > 200000:
@@ -146,6 +166,11 @@ def run_check(cid, tier, jobs=None):
     agg["extras"] = extras
     if hasattr(chk, "finalize"):
         chk.finalize(tier, agg)
+    # per-check vacuity guard: named counters that must be non-zero for the exploration to mean anything
+    missing = [n for n in getattr(chk, "SANITY", ()) if not agg["observations"].get(n)]
+    if missing:
+        print(f"HARNESS-VACUOUS: {cid} counters never incremented: {missing}")
+        return 2
 
     # ---- classify violations -------------------------------------------------
     known = [k for k in load_known() if k.get("property") == cid and k.get("status") == "open"]
@@ -171,7 +196,7 @@ def run_check(cid, tier, jobs=None):
         ok = True
         for _ in range(2):
             try:
-                again = chk.replay(json.loads(json.dumps(case)))
+                again = _replay_case(chk, json.loads(json.dumps(case)))
             except BaseException:
                 print("HARNESS-NONDETERMINISM: replay raised\n" + traceback.format_exc())
                 return 2
@@ -238,6 +263,19 @@ def run_check(cid, tier, jobs=None):
     return rc
 
 
+def _tuplify(x):
+    return tuple(_tuplify(i) for i in x) if isinstance(x, list) else x
+
+
+def _replay_case(chk, case):
+    global _CHECK
+    if isinstance(case, dict) and "__shard__" in case:
+        _CHECK = chk
+        r = _worker_run(_tuplify(case["__shard__"]))
+        return r.get("violations", []) if "harness_error" not in r else []
+    return chk.replay(case)
+
+
 def run_replay(cid, path):
     repo.setup()
     chk = load_check(cid.upper())
@@ -245,7 +283,7 @@ def run_replay(cid, path):
         rec = json.load(f)
     print(f"replaying {rec['property']} [{rec['key']}]: {rec['message']}")
     os.environ["VERIF_TRACE"] = "1"
-    vs = chk.replay(rec["case"])
+    vs = _replay_case(chk, rec["case"])
     for v in vs:
         print(f"  reproduced [{v['key']}]: {v['message']}")
     if any(v["key"] == rec["key"] for v in vs):
